@@ -17,6 +17,7 @@ CONSTANTS
   EmitOn,       \* print behaviours
   OnlyMentioned, \* restrict top-level calls to methods some clause mentions (cuts uninteresting histories)
   StopAfterDeviation, \* no further calls once an ordered call deviated (C04 is silent about what follows)
+  PoisonSet,    \* {} or {PoisonArg}: may calls carry the argument on which matchers panic
   PermOn        \* also choose an admissible reordering of the clauses (C18); the harness lists them in that order
 
 Seg(k, q, n) == [k |-> k, q |-> q, n |-> n]
@@ -32,7 +33,7 @@ PermsFor(l) == IF PermOn THEN { p \in Perms(Len(l)) : Admissible(l, p) } ELSE { 
 CfgFam == UNION { { [strict |-> s, leaves |-> l, perm |-> p] : p \in PermsFor(l) } : s \in StrictFam, l \in SeqsUpTo(LeafFam, MaxLeaves) }
 \* C18 (model side): assembling any admissible reordering gives the same observable table
 PermInvariantCfg == (PermOn /\ hist = <<>>) => PermInvariant(cfg.leaves)
-NodeFam == [m : Method, a : Arg, sc : ScriptFam, up : UpFam]
+NodeFam == [m : Method, a : Arg \cup PoisonSet, sc : ScriptFam, up : UpFam]
 
 MCInit == \E c \in CfgFam : InitWith(c)
 MCCall(node) ==
@@ -69,6 +70,8 @@ cHasUnmock == [m \in Method |-> m \in {"r1", "d1"}]
 cPartialByDef == [m \in Method |-> FALSE]
 cRetOwned == [m \in Method |-> m # "b0"]
 cRequired == Method \ {"d0", "d1"}
+cNoPoison == {}
+cPoison == {PoisonArg}
 cStrictBoth == BOOLEAN
 cStrictOnly == {TRUE}
 cNoScripts == {<<>>}
@@ -150,6 +153,9 @@ C08Leaves == { Leaf1("r0", "each", {0}, <<Seg("panic", "none", 0)>>), Leaf1("r0"
                Leaf1("r0", "next", {0}, Open), Leaf("r0", "stub", <<[pred |-> {0}, chain |-> <<V("n", 1)>>]>>),
                Leaf1("r1", "each", Arg, <<Seg("answer", "none", 0)>>), Leaf1("r1", "each", Arg, <<Seg("unmock", "none", 0)>>),
                Leaf1("d0", "next", {1}, <<Seg("dflt", "none", 0)>>), Leaf1("r2", "each", {1}, Open) }
+
+\* ---------------- C11 (second sentence): after a caught user panic the verdict reflects the calls actually matched ----------------
+C11Leaves == { Leaf1(m, f, p, c) : m \in {"r0", "r1"}, f \in {"each", "next", "some"}, p \in {{0}, Arg}, c \in {Open, <<V("n", 2)>>, <<Seg("answer", "n", 1)>>} }
 
 \* ---------------- C12: single-use values ----------------
 C12Leaves == { Leaf1(m, f, p, c) : m \in {"t0", "r0"}, f \in {"some", "next"}, p \in {{0}, Arg},
